@@ -1179,7 +1179,7 @@ class _Normalise(ast.NodeTransformer):
             tgt, val = st.target, st.value
         else:
             return None
-        if isinstance(nxt, ast.If) and isinstance(tgt, ast.Name) and isinstance(val, (ast.BoolOp, ast.Compare, ast.UnaryOp)) and not any(isinstance(x, (ast.Call, ast.Await, ast.NamedExpr)) for x in ast.walk(val)):
+        if isinstance(nxt, ast.If) and isinstance(tgt, ast.Name) and isinstance(val, (ast.BoolOp, ast.Compare, ast.UnaryOp, ast.Call)) and not any(isinstance(x, (ast.Await, ast.NamedExpr)) for x in ast.walk(val)):
             # a named condition: `ok = a and not b` / `if not ok:`  ->  `if not (a and not b):`
             name = tgt.id
             t = nxt.test
